@@ -11,7 +11,9 @@ from .. import lib
 
 FN = [('r', r) for r in rops.REDUCERS] + [('f', k) for k in rops.FUNCS]
 STRRED = ['mean', 'sum', 'min', 'max', 'std', 'var', 'median']   # reduce_dim string form
-CONV = [['valid', [.5, .5]], ['same', [.25, .5, .25]], ['full', [1., 1.]]]
+CONV = [['valid', [.5, .5]], ['same', [.25, .5, .25]], ['full', [1., 1.]],
+        # windows longer than the dimension (numpy swaps the operands: 'same' gives the window length)
+        ['same', [.125, .25, .5, .25, .125]], ['valid', [.25, .25, .25, .25]]]
 DICTFN = [('d', 'diff'), ('d', 'first')]   # documented dict form {'func1d': f}
 # dict form WITH keyword options (each dimension its own): {'func1d': scale_shift, 'a': .., 'b': ..}
 DICTKW = [('d', 'ss_2_1'), ('d', 'ss_m1_3'), ('d', 'head_1'), ('d', 'head_2')]
